@@ -265,6 +265,9 @@ def run_one(seed, preset=None, tier="quick", want_case=False):
     r["probes"] = {"syntax_error": int(syntactically_ok is False), "parsed_after_corruption": int(kind == "text" and bool(syntactically_ok)),
                    "nothing_may_run": int(bool(expect_nothing_ran)), "custom_error_coercer": int(use_coercer),
                    "coercer_with_ge2_errors": int(use_coercer and len(coerced) >= 2), "response_with_errors": int(has_errors)}
+    if viol:
+        from simv.model.document import doc_to_json
+        r["doc_model"] = doc_to_json(case.doc)
     if want_case or viol:
         r["case"] = {"sdl": case.sdl, "query": repr(text)[:3000], "operation_name": repr(op_name), "variables": repr(variables)[:500],
                      "context": repr(context), "call": detail, "expect_nothing_ran": expect_nothing_ran, "custom_error_coercer": use_coercer,
